@@ -54,19 +54,26 @@ type ListSpec struct {
 	Logs   []LogSpec
 }
 
-// Lifetime describes NotBefore / NotAfter of the certificate. Both are midnight UTC, NotBefore on a day
-// <= 28 so that calendar-month arithmetic is unambiguous.
+// Lifetime describes NotBefore / NotAfter of the certificate (UTC, whole seconds). NotBefore lies on a
+// day <= 28 so that calendar-month arithmetic is unambiguous; the two times of day are independent.
 type Lifetime struct {
-	NBMonth int // NotBefore = 2022-01-01 + NBMonth months + (NBDay-1) days
+	NBMonth int // NotBefore date = 2022-01-01 + NBMonth months + (NBDay-1) days
 	NBDay   int // 1..28
-	Months  int // NotAfter = NotBefore + Months calendar months + Days days
+	Months  int // NotAfter date = NotBefore date + Months calendar months + Days days
 	Days    int
+	NBSec   int // NotBefore time of day, seconds after midnight (0..86399)
+	NASec   int // NotAfter time of day
 }
 
-func (l Lifetime) NotBefore() time.Time {
+func (l Lifetime) nbDate() time.Time {
 	return time.Date(2022, time.January, 1, 0, 0, 0, 0, time.UTC).AddDate(0, l.NBMonth, l.NBDay-1)
 }
-func (l Lifetime) NotAfter() time.Time { return l.NotBefore().AddDate(0, l.Months, l.Days) }
+func (l Lifetime) naDate() time.Time { return l.nbDate().AddDate(0, l.Months, l.Days) }
+
+func (l Lifetime) NotBefore() time.Time {
+	return l.nbDate().Add(time.Duration(l.NBSec) * time.Second)
+}
+func (l Lifetime) NotAfter() time.Time { return l.naDate().Add(time.Duration(l.NASec) * time.Second) }
 
 // Behaviour kinds of a scripted log for one submission.
 const (
@@ -145,8 +152,15 @@ func buildList(ls ListSpec, notAfter time.Time, present []bool) *loglist3.LogLis
 // fewer than 15 whole months -> 2 SCTs, 15..27 -> 3, 28..39 -> 4, more -> 5; Chrome additionally wants
 // one Google-operated and one non-Google-operated log).
 
-// wholeMonths counts complete calendar months between nb and na (nb on a day <= 28, both midnight).
+// wholeMonths counts complete calendar months between the DATES of nb and na - the policy's documented
+// arithmetic looks at year, month and day of month only, never at the time of day - and says whether
+// days are left over. nb lies on a day <= 28.
 func wholeMonths(nb, na time.Time) (months int, partial bool) {
+	day := func(t time.Time) time.Time {
+		y, m, d := t.UTC().Date()
+		return time.Date(y, m, d, 0, 0, 0, 0, time.UTC)
+	}
+	nb, na = day(nb), day(na)
 	k := 0
 	for !nb.AddDate(0, k+1, 0).After(na) {
 		k++
@@ -247,3 +261,19 @@ func orderWeights(perm []int, member func(int) bool) map[string]float32 {
 }
 
 func ms(d int) time.Duration { return time.Duration(d) * time.Millisecond }
+
+// lifetimeClass labels the boundary shapes of a lifetime for the evidence histogram.
+func lifetimeClass(l Lifetime) []string {
+	var out []string
+	m, partial := wholeMonths(l.NotBefore(), l.NotAfter())
+	if !partial && (m == 15 || m == 28 || m == 40) {
+		out = append(out, "lifetime:exactly-on-a-step")
+		if l.NASec < l.NBSec {
+			out = append(out, "lifetime:on-a-step-with-earlier-clock-time")
+		}
+	}
+	if l.NBSec != 0 || l.NASec != 0 {
+		out = append(out, "lifetime:non-midnight")
+	}
+	return out
+}
